@@ -398,7 +398,7 @@ class MatchingMonitor(X.Monitor):
             ctx.violate("C01", "inputs_untouched", "get_object_results changed a caller list", {}, st.index)
         est_ids, gt_ids = set(_ids(ests)), set(_ids(gts))
         used_e, used_g = {}, {}
-        policy = kw["matching_label_policy"].value
+        policy = V.plan_policy(ctx.plan["config"])   # the configured policy, whatever the evaluator hands to its matcher
         labels = [l.value for l in kw["target_labels"]] if kw.get("target_labels") is not None else None
         radii = kw.get("matchable_thresholds")
         dim2 = any(V.is_2d(o) for o in list(ests)[:1] + list(gts)[:1])
@@ -630,7 +630,7 @@ class C03Monitor(X.Monitor):
         gts = fr.frame_ground_truth.objects
         tp, fp, fn, tn = pf.tp_object_results, pf.fp_object_results, pf.fn_objects, pf.tn_objects
         ctx.probe("c03_steps")
-        policy = lane.config.label_params["matching_label_policy"].value
+        policy = V.plan_policy(ctx.plan["config"])   # as configured by the plan
 
         # --- results = TP + FP, each exactly once -----------------------------------------------------
         # entries are identified by their (estimate, ground truth) pair, not by the result object itself: an
@@ -988,7 +988,7 @@ class C04Monitor(X.Monitor):
         maps = fr.metrics_score.maps
         if not maps:
             return
-        policy = lane.config.label_params["matching_label_policy"].value
+        policy = V.plan_policy(ctx.plan["config"])   # as configured by the plan
         gt_counts = {}
         for g in fr.frame_ground_truth.objects:
             gt_counts[V.label_of(g)] = gt_counts.get(V.label_of(g), 0) + 1
@@ -1004,7 +1004,7 @@ class C04Monitor(X.Monitor):
         score = rec["score"]
         if score is None or not score.maps:
             return
-        policy = lane.config.label_params["matching_label_policy"].value
+        policy = V.plan_policy(ctx.plan["config"])   # as configured by the plan
         frames = rec["delivered"]
         gt_counts = {}
         for fr in frames:
